@@ -42,6 +42,9 @@ type c09H struct {
 	e       *ibcEnv
 	clients []c09Client
 	chans   []c09Chan
+	// x/group fixture of the stored-proposal route (c09_group.go)
+	groupPolicy string
+	nProposals  uint64
 }
 
 type c09Chan struct {
@@ -241,6 +244,12 @@ func (h *c09H) exec(line string) (res string, ibc string) {
 			fmt.Fprintln(os.Stderr, "DEBUG", f[0], "err:", err)
 		}
 	}
+	if r, o, ok := h.execAdmin(f, m); ok {
+		if os.Getenv("C09_DEBUG") != "" {
+			fmt.Fprintln(os.Stderr, "DEBUG", f[0], "=>", r)
+		}
+		return r, o
+	}
 	switch f[0] {
 	case "update":
 		_, id := h.core.rollapp(f[1])
@@ -352,9 +361,16 @@ func (h *c09H) exec(line string) (res string, ibc string) {
 			chain = h.core.rollapps[h.clients[ci].chain]
 		}
 		hd := h.hdrFromLine(chain, m, atou(m["root"]))
-		inner, err := clienttypes.NewMsgUpdateClient(cid, hd, h.e.relayer.String())
+		signer := h.e.relayer.String()
+		if m["w"] == "group" {
+			signer = h.ensureGroup()
+		}
+		inner, err := clienttypes.NewMsgUpdateClient(cid, hd, signer)
 		if err != nil {
 			h.t.Fatal(err)
+		}
+		if m["w"] == "group" {
+			return h.runGroup(inner)
 		}
 		return h.runWrapped(m["w"], inner)
 	case "lc_misb":
@@ -369,13 +385,20 @@ func (h *c09H) exec(line string) (res string, ibc string) {
 		var inner sdk.Msg
 		var err error
 		k := m["k"]
+		signer := h.e.relayer.String()
+		if strings.HasSuffix(k, "Group") {
+			signer = h.ensureGroup()
+		}
 		if strings.HasPrefix(k, "submit") {
-			inner, err = clienttypes.NewMsgSubmitMisbehaviour(cid, mb, h.e.relayer.String()) //nolint:staticcheck
+			inner, err = clienttypes.NewMsgSubmitMisbehaviour(cid, mb, signer) //nolint:staticcheck
 		} else {
-			inner, err = clienttypes.NewMsgUpdateClient(cid, mb, h.e.relayer.String())
+			inner, err = clienttypes.NewMsgUpdateClient(cid, mb, signer)
 		}
 		if err != nil {
 			h.t.Fatal(err)
+		}
+		if strings.HasSuffix(k, "Group") {
+			return h.runGroup(inner)
 		}
 		w := map[string]string{"submit": "top", "submitNested": "nested", "viaUpdate": "top", "viaUpdateNested": "nested", "viaWrapped": "wrapped", "viaWrappedNested": "nestedwrapped"}[k]
 		return h.runWrapped(w, inner)
@@ -397,19 +420,47 @@ func (h *c09H) exec(line string) (res string, ibc string) {
 	case "lc_chanack":
 		chi, _ := strconv.Atoi(strings.TrimPrefix(f[1], "ch"))
 		chID := fmt.Sprintf("channel-%d", chi)
-		ack := channeltypes.NewMsgChannelOpenAck("transfer", chID, "channel-77", "ics20-1", []byte("proof"), clienttypes.NewHeight(1, 1), h.e.relayer.String())
-		ae, me := h.exec1(ack)
+		route := m["w"] // "" / top: MsgChannelOpenAck in the transaction; nested: inside authz.MsgExec; confirm: MsgChannelOpenConfirm
+		var msg sdk.Msg = channeltypes.NewMsgChannelOpenAck("transfer", chID, "channel-77", "ics20-1", []byte("proof"), clienttypes.NewHeight(1, 1), h.e.relayer.String())
+		ck := app.IBCKeeper.ChannelKeeper
+		before, exists := ck.GetChannel(ctx(), "transfer", chID)
+		switch route {
+		case "nested":
+			msg = h.msgExec(msg)
+		case "confirm":
+			// the rollapp started the handshake: the hub's channel end is in TRYOPEN (stand-in for an accepted MsgChannelOpenTry)
+			if exists && before.State == channeltypes.INIT {
+				try := before
+				try.State = channeltypes.TRYOPEN
+				try.Counterparty.ChannelId = "channel-77"
+				ck.SetChannel(ctx(), "transfer", chID, try)
+			}
+			msg = channeltypes.NewMsgChannelOpenConfirm("transfer", chID, []byte("proof"), clienttypes.NewHeight(1, 1), h.e.relayer.String())
+		}
+		ae, me := h.exec1(msg)
 		dbg(ae)
+		dbg(me)
+		if route == "confirm" && exists && before.State == channeltypes.INIT {
+			ck.SetChannel(ctx(), "transfer", chID, before)
+		}
 		if ae != nil {
 			if c := c09LcClass(ae); c != "" {
 				return "ante:" + c, ""
+			}
+			if route == "nested" || route == "confirm" {
+				return "ante:other", "" // the ante chain has nothing to say about these two routes
 			}
 			return "ante:chanUnknown", ""
 		}
 		if me == nil {
 			h.t.Fatal("a channel handshake with a bogus proof succeeded")
 		}
-		if m["ibc"] == "1" {
+		if (route == "nested" || route == "confirm") && exists && before.State == channeltypes.INIT && !c09IsProofFailure(me) &&
+			!strings.Contains(me.Error(), "client") {
+			// on a channel in INIT state over an active client the only thing between these two routes and an open channel is the proof
+			h.t.Fatalf("%s: the handshake message did not get as far as proof verification: %v", route, me)
+		}
+		if m["ibc"] == "1" && (exists || route == "" || route == "top") {
 			h.e.setChannelOpen(chID, "channel-77") // stands for the same message carrying a valid proof
 			return "ok", ""
 		}
@@ -443,6 +494,12 @@ func (h *c09H) exec(line string) (res string, ibc string) {
 	// everything else is an M-Core op
 	r := h.core.exec(line)
 	return r, ""
+}
+
+// c09IsProofFailure: ibc core refused the handshake step because the (bogus) proof does not verify — everything before
+// that (routing, authz dispatch, channel / connection / client lookups, state checks) went through
+func c09IsProofFailure(err error) bool {
+	return strings.Contains(err.Error(), "failed channel state verification")
 }
 
 // runWrapped sends `inner` by one of the four routes and classifies the outcome
@@ -536,6 +593,11 @@ func (h *c09H) snapshot() *c09Snap {
 		st, ok := app.IBCKeeper.ClientKeeper.GetClientState(ctx, c.id)
 		if ok {
 			tm := st.(*ibctm.ClientState)
+			// the chain id the client has NOW (an upgrade or a recovery can change it)
+			cs.Chain = -1
+			if ri, known := h.core.raIdx[tm.ChainId]; known {
+				cs.Chain = ri
+			}
 			cs.Frozen = !tm.FrozenHeight.IsZero()
 			cs.Latest = tm.LatestHeight.RevisionHeight
 			cs.Params = tm.TrustLevel == exp.TrustLevel && tm.TrustingPeriod == exp.TrustingPeriod && tm.UnbondingPeriod == exp.UnbondingPeriod &&
@@ -619,6 +681,14 @@ func (h *c09H) snapshot() *c09Snap {
 		s.Tokens[i] = q.TokensCoin().Amount
 	}
 	return s
+}
+
+func pairsOf(m map[int]int) string {
+	var xs []string
+	for _, k := range sortedKeys(m) {
+		xs = append(xs, fmt.Sprintf("r%d>ch%d", k, m[k]))
+	}
+	return "chof=" + strings.Join(xs, ",")
 }
 
 func lt3(a, b [3]uint64) bool {
@@ -711,6 +781,8 @@ type c09Mon struct {
 	// C06, third clause: headers accepted from a bonded sequencer for a height the hub had no descriptor for,
 	// kept until a descriptor for that height exists or the consensus state is gone: (client, height) -> signers
 	unv map[[2]uint64]map[int]bool
+	// channels opened by a message the light-client decorator does not look at (nested ack, confirm)
+	unseenOpen map[int]bool
 }
 
 func (m *c09Mon) violate(sig, detail string) {
@@ -780,7 +852,7 @@ func (m *c09Mon) check(op, res string, cur *c09Snap) {
 			continue
 		}
 		// set_canonical_requires_agreement: a new designation
-		if f[0] != "lc_setcanon" {
+		if f[0] != "lc_setcanon" && !(f[0] == "tx" && strings.Contains(op, "lc_setcanon ")) {
 			m.violate("C09/set_canonical_requires_agreement/designated-by-another-op", op)
 		}
 		cl := cur.Clients[c]
@@ -795,13 +867,30 @@ func (m *c09Mon) check(op, res string, cur *c09Snap) {
 			if d := cur.desc(r, cl.Cons[i].H); d != nil {
 				overlap++
 				if why := agree(&cl.Cons[i], d, true); why != "" {
-					m.violate("C09/set_canonical_requires_agreement/existing-consensus-state-disagrees",
+					sig := "C09/set_canonical_requires_agreement/existing-consensus-state-disagrees"
+					if f[0] == "tx" && prev.cons(c, cl.Cons[i].H) == nil {
+						// the consensus state arrived in the same transaction as the designation
+						sig = "C09/later_conflict_rejected/conflicting-items-accepted-in-one-transaction"
+					}
+					m.violate(sig,
 						fmt.Sprintf("c%d designated for r%d although its consensus state at %d (%+v) disagrees (%s) with the descriptor (%+v)", c, r, cl.Cons[i].H, cl.Cons[i], why, *d))
 				}
 			}
 		}
 		if overlap == 0 {
 			m.violate("C09/set_canonical_requires_agreement/no-overlap", op)
+		}
+	}
+	// canonical_client_immutable: a canonical client stays a client of its rollapp's chain with the expected parameters
+	for r, c := range cur.R2C {
+		if c < 0 || c >= len(cur.Clients) {
+			continue
+		}
+		if cur.Clients[c].Chain != r {
+			m.violate("C09/canonical_client_immutable/chain-id-changed", fmt.Sprintf("canonical client c%d of r%d has the chain id of %d after %s", c, r, cur.Clients[c].Chain, op))
+		}
+		if _, was := prev.R2C[r]; was && !cur.Clients[c].Params && prev.Clients[c].Params {
+			m.violate("C09/canonical_client_immutable/parameters-changed", fmt.Sprintf("canonical client c%d of r%d after %s", c, r, op))
 		}
 	}
 	// agreement_inv / later_conflict_rejected: an item that arrives while the client is canonical must agree
@@ -831,13 +920,42 @@ func (m *c09Mon) check(op, res string, cur *c09Snap) {
 			if f[0] == "update" && pc == nil {
 				which = "fork-resolution-writes-disagreeing-consensus-state"
 			}
+			if f[0] == "tx" {
+				which = "conflicting-items-accepted-in-one-transaction"
+			}
 			if why := agree(cs, d, true); why != "" {
 				m.violate("C09/later_conflict_rejected/"+which,
 					fmt.Sprintf("r%d c%d height %d: consensus state %+v vs descriptor %+v disagree (%s) after %s", r, c, cs.H, *cs, *d, why, op))
 			}
 		}
 	}
-	m.c06(f, kv, res, prev, cur)
+	if f[0] == "tx" {
+		// the per-message clauses, for every message of a transaction that went through as a whole
+		if res == "ok" {
+			for _, sub := range c09TxSubs(op) {
+				sf := strings.Fields(sub)
+				m.c06(sf, parseKV(sf), "ok", prev, cur)
+				m.perMsg(sf, parseKV(sf), "ok", sub, prev, cur)
+				if sf[0] == "lc_misb" {
+					ci, _ := m.h.clientByTok(sf[1])
+					_, was := prev.C2R[ci]
+					if _, is := cur.C2R[ci]; is && !was && ci < len(cur.Clients) && cur.Clients[ci].Frozen && !prev.Clients[ci].Frozen {
+						m.violate("C09/misbehaviour_rejected/client-designated-and-frozen-in-one-transaction", op)
+					}
+				}
+			}
+		} else {
+			m.c06(f, kv, res, prev, cur)
+		}
+	} else {
+		m.c06(f, kv, res, prev, cur)
+		m.perMsg(f, kv, res, op, prev, cur)
+	}
+	m.channels(op, prev, cur)
+}
+
+// perMsg: the clauses about one client message (signer_rules, nested_update_rejected, misbehaviour_rejected)
+func (m *c09Mon) perMsg(f []string, kv map[string]string, res, op string, prev, cur *c09Snap) {
 	switch f[0] {
 	case "lc_update":
 		ci, _ := m.h.clientByTok(f[1])
@@ -866,7 +984,7 @@ func (m *c09Mon) check(op, res string, cur *c09Snap) {
 				m.r.Hit("signer/accepted-header-naming-a-proposer-of-another-rollapp")
 			}
 		}
-		if kv["w"] == "nested" && !strings.HasPrefix(res, "ante:") {
+		if (kv["w"] == "nested" || kv["w"] == "group") && !strings.HasPrefix(res, "ante:") {
 			m.violate("C09/nested_update_rejected/nested-update-not-refused-by-ante", op+" => "+res)
 		}
 	case "lc_misb":
@@ -880,7 +998,10 @@ func (m *c09Mon) check(op, res string, cur *c09Snap) {
 			}
 		}
 	}
-	// first_channel_only
+}
+
+// channels: first_channel_only
+func (m *c09Mon) channels(op string, prev, cur *c09Snap) {
 	for r, ch := range prev.ChOf {
 		if c2, ok := cur.ChOf[r]; !ok || c2 != ch {
 			m.violate("C09/first_channel_only/canonical-channel-changed", fmt.Sprintf("r%d: %d -> %v by %s", r, ch, cur.ChOf[r], op))
@@ -899,8 +1020,39 @@ func (m *c09Mon) check(op, res string, cur *c09Snap) {
 		for o, isOpen := range prev.Chans {
 			if isOpen && o != ch && o < len(m.h.chans) && m.h.chans[o].client == cur.R2C[r] {
 				if _, wasCanon := prev.R2C[r]; wasCanon {
-					m.violate("C09/first_channel_only/not-the-first-opened-channel", op)
+					if m.unseenOpen[o] {
+						// other root cause than the ante-write-kept findings: the earlier channel was opened by a message the decorator does not look at
+						m.violate("C09/first_channel_only/later-channel-canonical-after-unseen-open", op)
+					} else {
+						m.violate("C09/first_channel_only/not-the-first-opened-channel", op)
+					}
 				}
+			}
+		}
+	}
+	// the first transfer channel OPENED over the canonical client of a rollapp without canonical channel must become canonical
+	for o, isOpen := range cur.Chans {
+		if !isOpen || o < len(prev.Chans) && prev.Chans[o] || o >= len(m.h.chans) {
+			continue
+		}
+		for r, c := range prev.R2C {
+			if c != m.h.chans[o].client {
+				continue
+			}
+			if _, had := prev.ChOf[r]; had {
+				continue
+			}
+			earlier := false
+			for o2, was := range prev.Chans {
+				earlier = earlier || was && o2 < len(m.h.chans) && m.h.chans[o2].client == c
+			}
+			if got, ok := cur.ChOf[r]; !earlier && (!ok || got != o) {
+				if m.unseenOpen == nil {
+					m.unseenOpen = map[int]bool{}
+				}
+				m.unseenOpen[o] = true
+				m.violate("C09/first_channel_only/opened-channel-not-canonical",
+					fmt.Sprintf("r%d: channel %d is the first channel opened over canonical client c%d but is not the rollapp's canonical channel (%s) after %s", r, o, c, pairsOf(cur.ChOf), op))
 			}
 		}
 	}
@@ -1241,6 +1393,8 @@ func (c *c09Gen) headerLine(ci int, cs *coreSnap, ls *c09Snap) string {
 		w = "nested"
 	case 3:
 		w = "nestedwrapped"
+	case 4:
+		w = "group"
 	}
 	c.r.Hit("header/route-" + w)
 	return fmt.Sprintf("lc_update c%d w=%s h=%d root=%d ts=%d nv=%d ps=%s pd=%s rev=%d trusted=%d vals=%s tvals=%s",
@@ -1377,7 +1531,7 @@ func (c *c09Gen) misbLine(ci int, ls *c09Snap) string {
 		signer = 0
 	}
 	ht := tr.H + 1 + uint64(g.Intn(3))
-	ks := []string{"submit", "submit", "submitNested", "submitNested", "viaUpdate", "viaUpdate", "viaUpdateNested", "viaWrapped", "viaWrappedNested"}
+	ks := []string{"submit", "submit", "submitNested", "submitNested", "viaUpdate", "viaUpdate", "viaUpdateNested", "viaWrapped", "viaWrappedNested", "submitGroup", "viaUpdateGroup"}
 	k := ks[g.Intn(len(ks))]
 	c.r.Hit("misbehaviour/" + k)
 	vals := []hdrVal{{signer, 1, true}}
@@ -1471,6 +1625,30 @@ func (c *c09Gen) next(cs *coreSnap, ls *c09Snap, inBlock *bool) string {
 			}
 			c.r.Hit("sequencer/early-signer-bond-dec")
 			return fmt.Sprintf("bond_dec a%d amt=%d", a, 1+g.Intn(500))
+		}
+	}
+	if hasCanon && canon < len(ls.Clients) && ls.Clients[canon].Frozen && len(mine) > 1 && g.Chance(30) {
+		// the window after a fork froze the canonical client: governance recovers it with another client of the chain
+		sub := mine[g.Intn(len(mine))]
+		c.r.Hit("admin/recover-frozen-canonical-client")
+		return fmt.Sprintf("lc_recover c%d sub=c%d", canon, sub)
+	}
+	if len(mine) > 1 && g.Chance(2) {
+		c.r.Hit("admin/recover-any")
+		return fmt.Sprintf("lc_recover c%d sub=c%d", mine[g.Intn(len(mine))], mine[g.Intn(len(mine))])
+	}
+	if len(mine) > 0 && g.Chance(2) {
+		ci := mine[g.Intn(len(mine))]
+		if hasCanon && g.Bool() {
+			ci = canon
+		}
+		chain := []string{"x", "r0", "r1"}[g.Intn(3)]
+		c.r.Hit("admin/upgrade")
+		return fmt.Sprintf("lc_upgrade c%d chain=%s h=%d ts=%d nv=%d", ci, chain, ls.Clients[ci].Latest+uint64(g.Intn(3)), 2000+g.Intn(50), 1+g.Intn(5))
+	}
+	if len(mine) > 0 && g.Chance(9) {
+		if l := c.txLine(ri, ra, cs, ls, mine); l != "" {
+			return l
 		}
 	}
 	k := g.Intn(100)
@@ -1569,7 +1747,15 @@ func (c *c09Gen) next(cs *coreSnap, ls *c09Snap, inBlock *bool) string {
 		if g.Chance(4) {
 			ch = 50
 		}
-		return fmt.Sprintf("lc_chanack ch%d ibc=%d", ch, ibc)
+		w := "top"
+		switch k := g.Intn(100); {
+		case k < 14:
+			w = "nested"
+		case k < 24:
+			w = "confirm"
+		}
+		c.r.Hit("channel/route-" + w)
+		return fmt.Sprintf("lc_chanack ch%d w=%s ibc=%d", ch, w, ibc)
 	}
 	return c.updateLine(ri, ra, ls, false, false)
 }
@@ -1611,7 +1797,12 @@ func c09RunTrace(t *testing.T, r *Run, lines []string, g *Rng, nOps int) {
 			mon.check(op, "ok", ls)
 			continue
 		}
-		res, ibc := h.exec(op)
+		var res, ibc string
+		if f[0] == "tx" {
+			res, op = h.execTx(op) // the oracle verdicts are filled in (generated line) or checked (replayed line) per sub-op
+		} else {
+			res, ibc = h.exec(op)
+		}
 		if ibc != "" {
 			// oracle: recorded on generated lines, checked on replayed ones
 			kv := parseKV(f)
@@ -1693,6 +1884,43 @@ func c09Directed() [][]string {
 		cat(ra0, []string{up(1, 3), honest,
 			"lc_update c0 w=top h=5 root=6 ts=50 nv=1 ps=x1 pd=x1 rev=0 trusted=2 vals=a0:10:1,x1:1:0 tvals=a0:1:1", "lc_setcanon c0",
 			"update r0 by=a0 start=4 num=3 rev=0 last=0 bdlen=3 seqerr=- ts=all drs=1 rooterr=- roots=5,99,7 tss=40,50,60", up(4, 3)}),
+		// ONE transaction [MsgUpdateState(heights 4..5), MsgUpdateClient(header for 5 with another root)]: the ante handler sees the
+		// header before the state update exists (optimistic), the hook sees the state update before the consensus state exists
+		cat(ra0, []string{up(1, 3), honest, "lc_setcanon c0",
+			"tx " + up(4, 2) + " ;; lc_update c0 w=top h=5 root=99 ts=50 nv=1 ps=a0 pd=a0 rev=0 trusted=2 vals=a0:1:1 tvals=a0:1:1",
+			up(6, 1), "begin dt=1000000000", "end fail=-"}),
+		// the same with the header for a height inside the batch
+		cat(ra0, []string{up(1, 3), honest, "lc_setcanon c0",
+			"tx " + up(4, 2) + " ;; lc_update c0 w=top h=4 root=99 ts=40 nv=1 ps=a0 pd=a0 rev=0 trusted=2 vals=a0:1:1 tvals=a0:1:1", up(6, 1)}),
+		// ONE transaction [MsgSetCanonicalClient, MsgUpdateClient(header for the posted height 3 with another root, signed by the sequencer
+		// a0 with power 10 and naming the unregistered key x1 as proposer)]: the ante handler sees a client that is not canonical and a
+		// proposer that is no sequencer (nothing to check), the designation then succeeds, the header then gets into the canonical client
+		cat(ra0, []string{up(1, 3), "lc_create chain=r0 tl=0 tp=0 ub=0 dr=0 specs=1,2 path=1,2 h=1 root=2 ts=10 nv=1",
+			"tx lc_setcanon c0 ;; lc_update c0 w=top h=3 root=99 ts=30 nv=1 ps=x1 pd=x1 rev=0 trusted=1 vals=a0:10:1,x1:1:0 tvals=a0:1:1"}),
+		// ONE transaction [MsgSetCanonicalClient, MsgSubmitMisbehaviour]: the client is designated and frozen
+		cat(ra0, []string{up(1, 3), honest,
+			"tx lc_setcanon c0 ;; lc_misb c0 k=submit h=4 root=5 ts=40 nv=1 ps=a0 pd=a0 rev=0 trusted=2 vals=a0:1:1 tvals=a0:1:1"}),
+		// mirrored order: the header first — the hook of the state update then finds the consensus state and refuses, the transaction is atomic
+		cat(ra0, []string{up(1, 3), honest, "lc_setcanon c0",
+			"tx lc_update c0 w=top h=5 root=99 ts=50 nv=1 ps=a0 pd=a0 rev=0 trusted=2 vals=a0:1:1 tvals=a0:1:1 ;; " + up(4, 2), up(4, 2)}),
+		// a header contradicting the posted descriptor of height 3, and evidence, inside an x/group proposal that is only stored at
+		// submission (Exec unspecified) and would run on a later vote with Exec = TRY: the submitting transaction is refused
+		cat(ra0, []string{up(1, 3), honest, "lc_setcanon c0",
+			"lc_update c0 w=group h=3 root=99 ts=30 nv=1 ps=a0 pd=a0 rev=0 trusted=2 vals=a0:1:1 tvals=a0:1:1",
+			"lc_misb c0 k=submitGroup h=4 root=5 ts=40 nv=1 ps=a0 pd=a0 rev=0 trusted=2 vals=a0:1:1 tvals=a0:1:1",
+			"lc_misb c0 k=viaUpdateGroup h=4 root=5 ts=40 nv=1 ps=a0 pd=a0 rev=0 trusted=2 vals=a0:1:1 tvals=a0:1:1",
+			"lc_update c0 w=group h=5 root=6 ts=50 nv=1 ps=a0 pd=a0 rev=0 trusted=2 vals=a0:1:1 tvals=a0:1:1"}),
+		// a fork freezes the canonical client; governance recovers it with a client of another chain that carries a bogus consensus
+		// state at the posted height 3 and another trusting period; an upgrade with a non-verifying proof before and after
+		cat(ra0, []string{up(1, 5), "bridge r0 h=1", honest, "lc_setcanon c0",
+			"lc_create chain=x tl=0 tp=1 ub=0 dr=0 specs=1,2 path=1,2 h=3 root=99 ts=30 nv=1001",
+			"lc_upgrade c0 chain=x h=9 ts=2000 nv=2", "lc_recover c0 sub=c1", "fraud r0 auth=gov h=5 rev=0 punish=- rewardee=-",
+			"lc_upgrade c0 chain=x h=9 ts=2000 nv=2", "lc_recover c0 sub=c1", "lc_recover c0 sub=c7", "lc_recover c1 sub=c0", "lc_upgrade c7 chain=r1 h=9 ts=2000 nv=2"}),
+		// the first channel over the canonical client is opened by an ack inside authz.MsgExec / by MsgChannelOpenConfirm: it does not
+		// become canonical, the next channel acknowledged at top level does
+		cat(ra0, []string{up(1, 3), honest, "lc_setcanon c0", "lc_chaninit c0", "lc_chaninit c0", "lc_chanack ch0 w=nested ibc=1", "lc_chanack ch1 w=top ibc=1"}),
+		cat(ra0, []string{up(1, 3), honest, "lc_setcanon c0", "lc_chaninit c0", "lc_chaninit c0", "lc_chanack ch0 w=confirm ibc=1", "lc_chanack ch1 w=top ibc=1"}),
+		cat(ra0, []string{up(1, 3), honest, "lc_setcanon c0", "lc_chaninit c0", "lc_chanack ch0 w=nested ibc=0", "lc_chanack ch7 w=nested ibc=1", "lc_chanack ch7 w=confirm ibc=1", "lc_chanack ch0 w=confirm ibc=0", "lc_chanack ch0 w=top ibc=1"}),
 		// happy path: designation, honest optimistic header, agreeing state update, channel
 		cat(ra0, []string{up(1, 3), honest, "lc_setcanon c0",
 			"lc_update c0 w=top h=5 root=6 ts=50 nv=1 ps=a0 pd=a0 rev=0 trusted=2 vals=a0:1:1 tvals=a0:1:1", up(4, 3),
